@@ -141,6 +141,7 @@ func (c18) Plan(tier string, seed int64) []mon.Workload {
 		{Name: "scope", N: int64(len(c18Loops) * len(c18Exits) * len(c18Wraps) * len(c18Tails)), Exhaustive: true},
 		{Name: "map-iteration", N: n / 10},
 		{Name: "slice-copy", N: int64(len(c18SliceForms) * len(c18SliceWrites)), Exhaustive: true},
+		{Name: "literal-fresh", N: int64(len(c18Literals) * len(c18LitWrites) * 2), Exhaustive: true},
 	}
 }
 
@@ -202,6 +203,35 @@ func c18SliceCopy(i int64) []*gt.T {
 	return gt.CloneStmts(l)
 }
 
+// literal-fresh (exhaustive): a list / map literal evaluated again is a new
+// value at every depth, also when it is made of constants only. Each literal
+// is evaluated three times (loop, or a function-like repetition through two
+// statements) with an in-place write at depth 1..3 in between.
+var c18Literals = []string{"[[0, 0], [0, 0]]", "[{\"n\": 0}, \"x\"]", "{\"k\": [1, {\"d\": 0}]}", "[[[1]]]", "[1, 2]", "{\"a\": 1}", "[(1), [2, (3)]]", "[[], {}]", "[[0, z], [z]]"}
+var c18LitWrites = []string{"g[0][1] = i + 1", "g[0][\"n\"] = \"a\"", "g[\"k\"][1][\"d\"] = i + 1", "g[0][0][0] += 5", "g[0] = 9", "g[\"a\"] += 1", "g[1][1] = [i]", "g[1][\"new\"] = i"}
+
+func c18LiteralFresh(i int64) []*gt.T {
+	loop := i%2 == 0
+	i /= 2
+	w := c18LitWrites[int(i)%len(c18LitWrites)]
+	l := c18Literals[int(i)/len(c18LitWrites)]
+	var text string
+	if loop {
+		text = "z = 7\nfor i = 0; i < 3; i = i + 1 {\n  g = " + l + "\n  p(g)\n  " + w + "\n  p(g)\n}\n"
+	} else {
+		text = "z = 7\ni = 0\ng = " + l + "\nh = g\n" + w + "\np(g, h)\ng = " + l + "\np(g, h)\n"
+	}
+	o := drive.Parse("literal-fresh", text)
+	if o.Err != nil {
+		panic("c18: literal-fresh program does not parse: " + text + ": " + o.Err.Error())
+	}
+	t, err := gt.FromStmts(o.Stmts)
+	if err != nil {
+		panic(err)
+	}
+	return gt.CloneStmts(t)
+}
+
 type c18Case struct {
 	Stmts []*gt.T
 	Cell  string
@@ -231,6 +261,9 @@ func (c18) build(c *mon.Ctx, workload string, i int64) c18Case {
 	}
 	if workload == "slice-copy" {
 		return c18Case{Stmts: c18SliceCopy(i), Cell: ""}
+	}
+	if workload == "literal-fresh" {
+		return c18Case{Stmts: c18LiteralFresh(i), Cell: ""}
 	}
 	g := gen.NewProg(c.R)
 	g.V2 = true
